@@ -57,7 +57,7 @@ class Drive:
     """One interpreter over an instrumented spec, with its queue model."""
 
     def __init__(self, spec, sc=None, ignore_contract=True, ctx_extra=None, interpreter=None,
-                 clock=None):
+                 clock=None, record_meta=False):
         from sismic.interpreter import Interpreter
         self.spec = spec
         self.tree = Tree(spec)
@@ -74,6 +74,9 @@ class Drive:
             self.interp = interpreter
             self.sc = interpreter.statechart
         self.qm = QueueModel()
+        self.meta = []          # names of the meta-events emitted, for the current step
+        if record_meta:     # (a listener makes the interpreter unpicklable: opt-in only)
+            self.interp.attach(lambda ev, _m=self.meta: _m.append(ev.name))
         self.started = False
         self.nlog = len(self.ctx['log'])
         self.nglog = len(self.ctx['glog'])
@@ -125,6 +128,7 @@ class Drive:
         rec['_head'] = head
         rec['exc'] = None
         rec['exc_obj'] = None
+        del self.meta[:]
         try:
             res = interp.execute_once()
             rec['result'] = macro_sig(res)
@@ -142,6 +146,7 @@ class Drive:
         rec['log'] = [tuple(x) for x in log[self.nlog:]]
         rec['glog'] = [tuple(x) for x in glog[self.nglog:]]
         self.nlog, self.nglog = len(log), len(glog)
+        rec['meta'] = list(self.meta)
         rec['config_after'] = list(interp.configuration)
         rec['v_after'] = self.ctx['v']
         rec['time_after'] = interp.time
